@@ -106,7 +106,10 @@ CHECKS["C07"] = {
 }
 
 CHECKS["C03"] = {
-    "text": "Proofs (all closed under the global context): constant folding of + - * / % returns the EXACT integer result or rejects, never another "
+    "text": "Proofs (all closed under the global context): the operator tables of the model are the tables of the source -- gen/GenOps.v is TRANSLATED on every run, arm by arm, from "
+            "opcode.rs (TryFrom<UnaryOperator/BinaryOperator>) and qmlast/expr.rs (from_node) and the model's lowering is proved equal to it (C03_operators_lowered_as_in_the_source); "
+            "the source refuses exactly >>> ** ?? instanceof in typeof void delete (C03_refused_operators) and conflates no two operators but the strict comparisons with "
+            "their loose twins (C03_lowering_conflates_only_strict_twins, C03_unary_lowering_injective); constant folding of + - * / % returns the EXACT integer result or rejects, never another "
             "value -- division/modulo by zero and 64-bit overflow are rejected, the only over-rejection being MIN % -1 (C03_fold_arith); a << b is accepted "
             "exactly when a*2^b is representable and then equals it (C03_fold_shl, after the repair of F5), a >> b is floor(a/2^b), negative or huge shift "
             "counts are rejected; unary minus, comparisons; an accepted integer literal denotes the mathematical value of its digit string in its radix "
